@@ -23,6 +23,9 @@ const (
 	// SRedispAbort: the handler re-dispatches the request (HandleContext) to a route whose only middleware (id 100)
 	// probes, aborts, probes; its main handler (id 101) must therefore never start, nor any later handler out here
 	SRedispAbort Step = "redispatch-to-aborting-route"
+	SAbortSt200  Step = "abort-status-200" // c.AbortWithStatus(200): must replace a pending non-200 status too
+	SSilent      Step = "silent"           // first step of a handler that records no events (the built-in 404 responder)
+	SDefault404  Step = "default-404"      // http.NotFound: status 404 unless committed, then the body
 )
 
 // Behaviour is the body of one handler: a sequence of steps.
@@ -57,9 +60,12 @@ func RunChain(bs []Behaviour, abortCode int) ChainResult {
 	pendingStatus := 0
 	var drive func()
 	run := func(k int) {
-		res.Events = append(res.Events, Event{Kind: "enter", H: k})
-		// IsAborted is sampled at every handler entry
-		res.Events = append(res.Events, Event{Kind: "probe", H: k, Aborted: aborted})
+		silent := len(bs[k]) > 0 && bs[k][0] == SSilent
+		if !silent {
+			res.Events = append(res.Events, Event{Kind: "enter", H: k})
+			// IsAborted is sampled at every handler entry
+			res.Events = append(res.Events, Event{Kind: "probe", H: k, Aborted: aborted})
+		}
 	loop:
 		for _, s := range bs[k] {
 			switch s {
@@ -91,6 +97,18 @@ func RunChain(bs []Behaviour, abortCode int) ChainResult {
 				if !res.Committed {
 					pendingStatus = 201
 				}
+			case SAbortSt200:
+				if !res.Committed {
+					pendingStatus = 200
+				}
+				aborted = true
+			case SSilent:
+			case SDefault404:
+				if !res.Committed {
+					pendingStatus = 404
+					res.Committed = true
+					res.Status = 404
+				}
 			case SRedispAbort:
 				res.Events = append(res.Events, Event{Kind: "enter", H: 100}, Event{Kind: "probe", H: 100, Aborted: false},
 					Event{Kind: "probe", H: 100, Aborted: false}, Event{Kind: "probe", H: 100, Aborted: true}, Event{Kind: "leave", H: 100})
@@ -101,7 +119,9 @@ func RunChain(bs []Behaviour, abortCode int) ChainResult {
 				break loop
 			}
 		}
-		res.Events = append(res.Events, Event{Kind: "leave", H: k})
+		if !silent {
+			res.Events = append(res.Events, Event{Kind: "leave", H: k})
+		}
 	}
 	drive = func() {
 		for next < len(bs) && !aborted {
